@@ -54,6 +54,15 @@ pub struct Scenario {
     pub plan: Plan,
     pub aslr_off: bool,
     pub long_flags: bool,
+    /// 0 = LF, trailing newline; 1 = CRLF; 2 = no trailing newline; 3 = blank lines and trailing spaces
+    #[serde(default)]
+    pub script_style: u8,
+    /// 0 = `-i v` / `--input v`; 1 = `--input=v`
+    #[serde(default)]
+    pub flag_eq: bool,
+    /// script argument before the flags
+    #[serde(default)]
+    pub script_first: bool,
 }
 
 #[derive(Clone, Debug)]
@@ -107,6 +116,13 @@ fn render_doc(rng: &mut Rng, v: &JV) -> String {
     }
 }
 
+fn gen_large_doc(rng: &mut Rng) -> String {
+    // larger than a pipe buffer (64 KiB) and than any plausible fixed read buffer
+    let n = rng.range(70_000, 180_000) as usize;
+    let filler: String = (0..n).map(|i| (b'a' + (i % 23) as u8) as char).collect();
+    format!("{{\"big\":\"{}\",\"a\":{},\"k\":[1,2,3]}}", filler, rng.range(0, 99))
+}
+
 fn gen_input_doc(rng: &mut Rng) -> String {
     match rng.below(10) {
         0 => (*rng.pick(&["{\"a\":", "[1,2", "nope", "{'a':1}", "{\"a\":1}}", "{\"a\" 1}"])).to_string(),
@@ -133,8 +149,15 @@ fn gen_input_doc(rng: &mut Rng) -> String {
 }
 
 fn gen_script(rng: &mut Rng, inputs_hint: &[String], world: &[(String, JV)]) -> Vec<CStmt> {
-    let n = rng.range(1, 9) as usize;
-    let names = ["p", "q", "res", "total", "iffy2", "nil_count", "out1", "v"];
+    // mostly short scripts; sometimes long ones (longer than a path component / a pipe chunk)
+    let long = rng.chance(1, 6);
+    let n = if long { rng.range(12, 40) as usize } else { rng.range(1, 9) as usize };
+    let extra: Vec<String> = (0..48).map(|i| format!("v{}", i)).collect();
+    let mut names: Vec<&str> = vec!["p", "q", "res", "total", "iffy2", "nil_count", "out1", "v"];
+    if long {
+        names.extend(extra.iter().map(|s| s.as_str()));
+    }
+    let allow_comments = !long || rng.chance(1, 2);
     let mut bound: Vec<(String, bool)> = vec![]; // (name, is_number)
     let mut stmts = vec![];
     let mut outs = 0;
@@ -143,7 +166,7 @@ fn gen_script(rng: &mut Rng, inputs_hint: &[String], world: &[(String, JV)]) -> 
         if !inputs_hint.is_empty() && rng.chance(2, 3) { rng.pick(inputs_hint).clone() } else { (*rng.pick(KEYS)).to_string() }
     };
     let mut gen_ce = |rng: &mut Rng, bound: &Vec<(String, bool)>| -> (CE, bool) {
-        match rng.below(10) {
+        match rng.below(11) {
             0 => (CE::Lit(gen_jv(rng, 1)), false),
             1 => (CE::Lit(JV::Num(rng.range(0, 40) as f64)), true),
             2 | 3 => {
@@ -184,6 +207,25 @@ fn gen_script(rng: &mut Rng, inputs_hint: &[String], world: &[(String, JV)]) -> 
                 let inner = if crate::hast::is_ident(&k) { CE::InDot(k) } else { CE::Inputs };
                 (CE::Rec(vec![("zz".into(), CE::Lit(JV::Bool(true))), ("aa".into(), inner)]), false)
             }
+            9 => {
+                // succeeds, but its value is not modelled (functions, built-ins, broadcasting,
+                // string / list built-ins): as an output the key must be there
+                let srcs = [
+                    "(x) => x + 1",
+                    "(a, b?) => [a, b]",
+                    "(...xs) => len(xs)",
+                    "sum",
+                    "[1, 2, 3] * 2",
+                    "range(4) via (x => x * x)",
+                    "uppercase(\"abc\") + to_string(12)",
+                    "if 1 .< 2 then \"yes\" else \"no\"",
+                    "do { t = 2; return t * 21 }",
+                    "{a: 1, ...{b: 2}}",
+                    "sort([3, 1, 2])",
+                    "((n) => n!)(5)",
+                ];
+                (CE::Opaque((*rng.pick(&srcs)).to_string()), false)
+            }
             _ => match bound.first() {
                 Some((n, isnum)) => (CE::Name(n.clone()), *isnum),
                 None => (CE::Lit(JV::Str("lit".into())), false),
@@ -219,13 +261,21 @@ fn gen_script(rng: &mut Rng, inputs_hint: &[String], world: &[(String, JV)]) -> 
                 }
                 outs += 1;
             }
-            _ => stmts.push(CStmt::Comment("note".into())),
+            _ => {
+                if allow_comments {
+                    stmts.push(CStmt::Comment("note".into()))
+                } else if !free.is_empty() {
+                    let name = (**rng.pick(&free)).to_string();
+                    bound.push((name.clone(), false));
+                    stmts.push(CStmt::Bind(name, CE::Lit(JV::Str("x".repeat(rng.range(1, 120) as usize)))));
+                }
+            }
         }
     }
     // optional failing statement at a seeded position
     if rng.chance(1, 3) {
         let pos = rng.usize_below(stmts.len() + 1);
-        let f = match rng.below(8) {
+        let f = match rng.below(15) {
             0 => CStmt::Fail("unknown-identifier".into(), "w1 = nosuch_name".into()),
             1 => CStmt::Fail("type-error".into(), "w2 = 1 + \"a\"".into()),
             2 => match bound.first() {
@@ -238,7 +288,14 @@ fn gen_script(rng: &mut Rng, inputs_hint: &[String], world: &[(String, JV)]) -> 
             4 => CStmt::Fail("output-unbound".into(), "output never_bound".into()),
             5 => CStmt::Syntax("w4 = = 1".into()),
             6 => CStmt::Fail("output-function-unbound-name".into(), "output fn1 = x => x + zzz_unbound".into()),
-            _ => CStmt::Fail("output-assign-type-error".into(), "output w5 = [1, 2] + [1]".into()),
+            7 => CStmt::Fail("output-assign-type-error".into(), "output w5 = [1, 2] + [1]".into()),
+            8 => CStmt::Syntax("w6 = [1, 2".into()),
+            9 => CStmt::Fail("output-list-with-unbound-function".into(), "output fl = [(x) => x + zzz_unbound]".into()),
+            10 => CStmt::Fail("error-inside-do-block".into(), "w7 = do { t = 1; return t + \"s\" }".into()),
+            11 => CStmt::Fail("error-inside-callback".into(), "w8 = [1, 2] via (x => x + \"s\")".into()),
+            12 => CStmt::Fail("bind-keyword-like-builtin".into(), "output len = 3".into()),
+            13 => CStmt::Fail("arity".into(), "w9 = ((a, b) => a)(1)".into()),
+            _ => CStmt::Syntax("output = 3".into()),
         };
         stmts.insert(pos, f);
     }
@@ -256,7 +313,12 @@ pub fn gen_scenario(rng: &mut Rng) -> Scenario {
     let stdin = if mode == Mode::EvalStdin {
         StdinKind::DevNull // replaced by the script at invocation time
     } else {
-        match rng.below(8) {
+        let kinds = if rng.chance(1, 12) { 9 } else { 8 };
+        match rng.below(kinds) {
+            8 => {
+                let d = gen_large_doc(rng).into_bytes();
+                if rng.chance(1, 2) { StdinKind::Pipe(d) } else { StdinKind::File(d) }
+            }
             0 => StdinKind::DevNull,
             1 => StdinKind::Pipe(b"".to_vec()),
             2 => StdinKind::Pipe(b" \n\t ".to_vec()),
@@ -294,22 +356,49 @@ pub fn gen_scenario(rng: &mut Rng) -> Scenario {
     };
     let mut plan = Plan::canonical();
     plan.seed = rng.next_u64() % 1_000_000_007;
-    Scenario { script, mode, out, stdin, stdout: StdoutKind::Pipe, flags, plan, aslr_off: false, long_flags: rng.chance(1, 2) }
+    Scenario {
+        script,
+        mode,
+        out,
+        stdin,
+        stdout: StdoutKind::Pipe,
+        flags,
+        plan,
+        aslr_off: false,
+        long_flags: rng.chance(1, 2),
+        script_style: if rng.chance(1, 2) { 0 } else { rng.below(4) as u8 },
+        flag_eq: rng.chance(1, 4),
+        script_first: rng.chance(1, 4),
+    }
 }
 
 // ---------------------------------------------------------------------------------------
 // Invocation, expectation, oracle
 // ---------------------------------------------------------------------------------------
 
+pub fn styled_source(sc: &Scenario) -> String {
+    let lines: Vec<String> = sc.script.iter().map(stmt_src).collect();
+    match sc.script_style {
+        1 => lines.join("\r\n") + "\r\n",
+        2 => lines.join("\n"),
+        3 => format!("\n\n{}  \n\n", lines.join("  \n\n")),
+        _ => lines.join("\n") + "\n",
+    }
+}
+
 pub fn invocation(sc: &Scenario) -> Invocation {
-    let src = script_src(&sc.script);
+    let src = styled_source(sc);
     let mut argv: Vec<String> = vec![];
     let mut files = vec![];
     let mut dirs = vec![];
     let mut stdin = sc.stdin.clone();
     for f in &sc.flags {
-        argv.push(if sc.long_flags { "--input".into() } else { "-i".into() });
-        argv.push(f.clone());
+        if sc.flag_eq {
+            argv.push(format!("--input={}", f));
+        } else {
+            argv.push(if sc.long_flags { "--input".into() } else { "-i".into() });
+            argv.push(f.clone());
+        }
     }
     let mut out_path = None;
     match &sc.out {
@@ -341,12 +430,13 @@ pub fn invocation(sc: &Scenario) -> Invocation {
             argv.push("/dev/full".into());
         }
     }
+    let pos = if sc.script_first { 0 } else { argv.len() };
     match sc.mode {
         Mode::File => {
             files.push(("prog.blots".to_string(), src.into_bytes()));
-            argv.push("prog.blots".into());
+            argv.insert(pos, "prog.blots".into());
         }
-        Mode::Inline => argv.push(src),
+        Mode::Inline => argv.insert(pos, src),
         Mode::EvalStdin => {
             argv.push(if sc.long_flags { "--evaluate".into() } else { "-e".into() });
             stdin = StdinKind::Pipe(src.into_bytes());
@@ -392,7 +482,7 @@ fn compare_object(text: &str, outputs: &[(String, JV)]) -> Result<(), String> {
         return Err(format!("top-level keys {:?}, expected {:?} (declaration order)", keys, want));
     }
     for (k, v) in outputs {
-        if matches!(v, JV::Str(s) if s == "\u{0}visible") {
+        if matches!(v, JV::Opaque) {
             continue;
         }
         let got = JV::from_serde(&obj[k]);
@@ -578,7 +668,7 @@ pub fn judge(sc: &Scenario, rr: &RunResult) -> Judged {
                 if let Err((c, d)) = check_success(outputs) {
                     let c = if c == "wrong-object"
                         && d.contains("top-level keys")
-                        && outputs.iter().any(|(k, v)| matches!(v, JV::Str(s) if s == "\u{0}visible") && !d.split("expected").next().unwrap_or("").contains(&format!("{:?}", k)))
+                        && outputs.iter().any(|(k, v)| matches!(v, JV::Opaque) && !d.split("expected").next().unwrap_or("").contains(&format!("{:?}", k)))
                     {
                         "output-dropped".to_string()
                     } else {
@@ -620,8 +710,18 @@ pub fn enumerate_plans(sc: &Scenario, base: &RunResult, rng: &mut Rng) -> Vec<(S
     let wrout = calls("write", "out");
     let opened_out = calls("open", "out") > 0;
     // ---- benign ------------------------------------------------------------------------
+    let large_stdin = matches!(&sc.stdin, StdinKind::Pipe(b) | StdinKind::File(b) if b.len() > 4096);
+    if large_stdin && rd0 > 0 {
+        // a large document: chunk sizes around typical buffer sizes instead of single bytes
+        for (name, sizes) in [("4k", vec![4096u32]), ("1000-7-65535", vec![1000, 7, 65535]), ("8191", vec![8191])] {
+            out.push((format!("benign:rchunks-{}:0", name), with_rules(sc, vec![Rule::RChunks { cls: "0".into(), sizes, star: false }])));
+        }
+    }
     for (name, sizes, star) in [("1byte", vec![1u32], false), ("2byte", vec![2], false), ("3-1-7-rest", vec![3, 1, 7], true)] {
         for cls in ["0", "src"] {
+            if cls == "0" && large_stdin && !star {
+                continue;
+            }
             if (cls == "0" && rd0 > 0) || (cls == "src" && rdsrc > 0) {
                 out.push((format!("benign:rchunks-{}:{}", name, cls), with_rules(sc, vec![Rule::RChunks { cls: cls.into(), sizes: sizes.clone(), star }])));
             }
@@ -633,7 +733,7 @@ pub fn enumerate_plans(sc: &Scenario, base: &RunResult, rng: &mut Rng) -> Vec<(S
         }
     }
     {
-        let sizes: Vec<u32> = (0..12).map(|_| rng.range(1, 9) as u32).collect();
+        let sizes: Vec<u32> = (0..12).map(|_| if large_stdin { rng.range(500, 9000) as u32 } else { rng.range(1, 9) as u32 }).collect();
         out.push((
             "benign:random-chunks-all".into(),
             with_rules(
@@ -717,7 +817,7 @@ pub fn enumerate_plans(sc: &Scenario, base: &RunResult, rng: &mut Rng) -> Vec<(S
     // ---- multi-fault: benign chunking + one hard fault; two hard faults ------------------
     for _ in 0..4 {
         let mut rules = vec![
-            Rule::RChunks { cls: "0".into(), sizes: vec![rng.range(1, 5) as u32], star: false },
+            Rule::RChunks { cls: "0".into(), sizes: vec![if large_stdin { rng.range(2000, 9000) as u32 } else { rng.range(1, 5) as u32 }], star: false },
             Rule::WChunks { cls: "1".into(), sizes: vec![rng.range(1, 5) as u32], star: false },
             Rule::WChunks { cls: "out".into(), sizes: vec![rng.range(1, 5) as u32], star: false },
         ];
@@ -761,6 +861,9 @@ pub fn pipeline_b(rng: &mut Rng, a_stdout: &[u8]) -> Scenario {
         plan,
         aslr_off: false,
         long_flags: false,
+        script_style: 0,
+        flag_eq: false,
+        script_first: false,
     }
 }
 
@@ -1024,7 +1127,7 @@ pub fn replay_doc(sc: &Scenario, v: &Viol, rr: &RunResult, seed: u64, run: u64) 
         "run": run,
         "scenario": sc,
         "argv": inv.argv,
-        "script": script_src(&sc.script),
+        "script": styled_source(sc),
         "plan": sc.plan.text(&inv.src_suffix, &inv.out_suffix),
         "violation": { "clause": v.clause, "detail": v.detail },
         "signature": signature(sc, v),
@@ -1093,6 +1196,9 @@ pub fn fixed_corpus() -> Vec<(String, Scenario)> {
         plan: Plan::canonical(),
         aslr_off: false,
         long_flags: false,
+        script_style: 0,
+        flag_eq: false,
+        script_first: false,
     };
     let mut v = vec![
         ("F3-output-builtin".to_string(), base(vec![CStmt::OutVisible("sum".into())])),
